@@ -1,7 +1,7 @@
 SPECIFICATION Spec
 CONSTANTS
-  MaxW = 200
-  MaxW3 = 48
+  MaxW = 120
+  MaxW3 = 40
   UseMutant = FALSE
 INVARIANT Lemmas
 CHECK_DEADLOCK FALSE
